@@ -44,6 +44,7 @@ def labelsOf (s : String) : Option (List Label) :=
   | 'p' :: 'B' :: r => (natOfChars r 0).map (fun w => [.pool (.begin w)])
   | 'p' :: 'L' :: r => (natOfChars r 0).map (fun w => [.pool (.look w)])
   | 'p' :: 'T' :: r => (natOfChars r 0).map (fun w => [.pool (.wake w true)])
+  | 'p' :: 'W' :: r => (natOfChars r 0).map (fun w => [.pool (.wake w false)])
   | 'q' :: r => (QueueCase.labelOf (String.ofList r)).map (fun l => [.queue l])
   | _ => none
 
